@@ -10,5 +10,4 @@ import (
 func rulePanicSites(r *rep.Report, p *load.Program, rl *roles.Roles)                        {}
 func ruleArithStructure(r *rep.Report, p *load.Program) { ruleUnrolledChains(r, p) }
 func ruleSchedules(r *rep.Report, p *load.Program)                                           {}
-func ruleMagnitudes(r *rep.Report, p *load.Program, pkg string)                              {}
 func ruleExpandLengths(r *rep.Report, p *load.Program)                                       {} // part of ruleBitOrigin(modm)
